@@ -335,7 +335,11 @@ def run_sequence(ctx, agg, kind, label, els, coords, charges, weights, grid0, fu
             sym, det = f"raised-{type(e).__name__}", f"raised {type(e).__name__}: {e}"
         else:
             det = judge(fn, got, st, is_ens, step, weighted)
-            if det is not None:
+            after = read_state(obj, is_ens, grid)
+            touched = [c for c in COMPONENTS if not (after[c].shape == st[c].shape and np.array_equal(after[c], st[c]))] + ([] if after["gdtype"] == st["gdtype"] else ["grid-dtype"])
+            if touched:
+                sym, det = f"caller-input-mutated[{'+'.join(touched)}]", f"the call changed the caller's {', '.join(touched)}"
+            elif det is not None:
                 sym = "wrong-value"
                 ex = explain_stale(fn, got, states, edits_done, is_ens, step, weighted) if edits_done else None
                 if ex is not None:
@@ -419,6 +423,118 @@ def descriptor_history_job(ctx, agg, arg):
                             for fc in GEOM_FUNCS:
                                 for ea, eb in (("atom-deleted", "atom-added"), ("atom-added", "element-changed-in-place"), ("coords-changed-in-place", "atom-deleted")):
                                     run_sequence(ctx, agg, kind, label, els, c1, np.zeros((1, c1.shape[1])), np.ones(1), grid0, (fa, fb, fc), (ea, eb), False, seed)
+
+
+# =================================================================================================
+# argument kinds and repeated calls
+# =================================================================================================
+GRID_KINDS = ("float32-C", "float64-C", "float32-non-contiguous", "float64-Fortran", "float32-read-only", "float64-read-only")
+
+
+def make_grid(kind, seed):
+    base = history_grid(seed)
+    dt = np.float32 if kind.startswith("float32") else np.float64
+    if kind.endswith("-C"):
+        return np.ascontiguousarray(base.astype(dt)), f"np.ascontiguousarray(G.astype(np.{np.dtype(dt).name}))"
+    if kind.endswith("non-contiguous"):
+        big = np.full((2 * len(base), 3), 77, dtype=dt)
+        big[::2] = base
+        return big[::2], f"np.repeat(G.astype(np.{np.dtype(dt).name}), 2, axis=0)[::2]"
+    if kind.endswith("Fortran"):
+        return np.asfortranarray(base.astype(dt)), f"np.asfortranarray(G.astype(np.{np.dtype(dt).name}))"
+    g = np.ascontiguousarray(base.astype(dt))
+    g.setflags(write=False)
+    return g, f"_ro(G.astype(np.{np.dtype(dt).name}))"
+
+
+def argkind_case(ctx, agg, kind, label, els, coords, charges, weights, fn, gkind, weighted, seed, aux_readonly):
+    """one call with the grid (and, for the field functions, the value/radius/index arrays) handed in as `gkind`;
+    oracle: the definition, every caller-owned array bit-identical afterwards, and the same call again gives the same result"""
+    from mc.props.c19 import snapshot, same_as_snapshot, same_result
+
+    obj, is_ens = build_object(kind, els, coords, charges, weights)
+    grid, gsrc = make_grid(gkind, seed)
+    st = read_state(obj, is_ens, grid)
+    op = fn
+    # aux_readonly: None = the function builds its own nearest-atom table; False / True = the caller hands in a
+    # writable / read-only table (and read-only value and radius arrays)
+    attrs = {"argkind": gkind, "aux": {None: "none", False: "caller-writable", True: "caller-read-only"}[aux_readonly]}
+    agg.tick(op, **attrs)
+    ctx.count(states=1, evaluations=2, traces=2, transitions=2)
+    aux = {}
+    if fn == "atomic_indicator_field":
+        v, r = custom_args(st)
+        aux = {"indicator_values": v, "atomic_radii": r}
+    if fn in ("aeif", "atomic_indicator_field") and aux_readonly is not None:
+        d = dist_all(st["coords"], st["grid"])
+        near = d.argmin(axis=1).astype(np.int64)  # the caller's own nearest-atom table
+        aux["nearest_atom_idx"] = near
+    if aux_readonly:
+        for a in aux.values():
+            a.setflags(write=False)
+
+    def call():
+        if fn == "aso":
+            return gb.aso(obj, grid, weighted=weighted)
+        if fn == "aeif":
+            return gb.aeif(obj, grid, weighted=weighted, **({"nearest_atom_idx": aux["nearest_atom_idx"]} if "nearest_atom_idx" in aux else {}))
+        if fn == "atomic_indicator_field":
+            return gb.atomic_indicator_field(obj, grid, aux["indicator_values"], aux["atomic_radii"], weighted=weighted, **({"nearest_atom_idx": aux["nearest_atom_idx"]} if "nearest_atom_idx" in aux else {}))
+        if fn == "nearest_atom_index":
+            return gb.nearest_atom_index(grid, obj, max_dist=MD_SEQ[0])
+        return gb.prune(grid, obj, max_dist=MD_SEQ[0], eps=0.5)
+
+    snaps = {"grid": snapshot(grid), **{k: snapshot(a) for k, a in aux.items()}}
+    objs = {"grid": grid, **aux}
+    sym = det = None
+    try:
+        got = call()
+    except Exception as e:
+        sym, det = f"raised-{type(e).__name__}", f"raised {type(e).__name__}: {e}"
+    else:
+        changed = [k for k in objs if not same_as_snapshot(objs[k], snaps[k])]
+        after = read_state(obj, is_ens, grid)
+        changed += [c for c in ("coords", "charges", "weights", "radii") if not np.array_equal(after[c], st[c])]
+        if changed:
+            sym, det = f"caller-input-mutated[{'+'.join(changed)}]", f"the call changed the caller's {', '.join(changed)}"
+        else:
+            det = judge(fn, got, st, is_ens, 0, weighted)
+            if det is not None:
+                sym = "wrong-value"
+            else:
+                try:
+                    again = call()
+                except Exception as e:
+                    sym, det = f"repeated-call-raised-{type(e).__name__}", f"the second identical call raised {type(e).__name__}: {e}"
+                else:
+                    if not same_result(got, again):
+                        sym, det = "repeated-call-differs", "the second identical call on the same caller objects returned a different result"
+    if sym:
+        case = {"kind": "argkind", "op": op, "symptom": sym, "obj": kind, "label": label, "els": list(els), "coords": coords.tolist(), "charges": np.asarray(charges).tolist(), "weights": np.asarray(weights).tolist(),
+                "fn": fn, "gkind": gkind, "weighted": weighted, "seed": seed, "aux_readonly": aux_readonly}  # fmt: skip
+        repro = repro_head(kind, els, coords, charges, weights, history_grid(seed)).replace("grid = np.array(", "G = np.array(") + "def _ro(a):\n    a = np.ascontiguousarray(a); a.setflags(write=False); return a\n" + f"grid = {gsrc}\n" + call_line(fn, 0, weighted) + "\n" + call_line(fn, 0, weighted)
+        agg.fail(op, sym, attrs, f"{fn}({label} {''.join(els)}, grid handed in as {gkind}{'' if aux_readonly is None else (', own read-only value/radius/index arrays' if aux_readonly else ', own nearest-atom table')}, weighted={weighted}): {det}", case, repro)
+        return
+    ctx.nontrivial(("ak", fn, gkind, aux_readonly, label))
+    ctx.outcome(("ak", fn, zlib.crc32(np.round(np.asarray(got, dtype=np.float64), 9).tobytes()) % 1024))
+
+
+def argkind_job(ctx, agg, arg):
+    seed, thorough = arg["seed"], arg["thorough"]
+    for label, els, coords, charges, weights in history_bases(seed, thorough):
+        for gkind in GRID_KINDS:
+            for fn in ENS_FUNCS:
+                for aux_ro in (None, False, True) if fn in ("aeif", "atomic_indicator_field") else (None,):
+                    argkind_case(ctx, agg, "ensemble", label, els, coords, charges, weights, fn, gkind, True, seed, aux_ro)
+            if coords.shape[0] == 1:
+                for kind in ("Molecule", "CartesianGeometry"):
+                    for fn in GEOM_FUNCS:
+                        argkind_case(ctx, agg, kind, label, els, coords, np.zeros((1, coords.shape[1])), np.ones(1), fn, gkind, False, seed, None)
+
+
+def replay_argkind(ctx, agg, case):
+    coords = np.array(case["coords"], dtype=np.float64)
+    argkind_case(ctx, agg, case["obj"], case["label"], tuple(case["els"]), coords, np.array(case["charges"]), np.array(case["weights"]), case["fn"], case["gkind"], case["weighted"], case["seed"], case["aux_readonly"])
 
 
 def replay_history(ctx, agg, case):
